@@ -1078,6 +1078,49 @@ def run(chk):
                                "raw_expected_b64": None, "impl_out": out.decode("utf-8", "replace")[:2000]}, True, "yq -o=json '%s': %s" % (e, why))
     chk.extra["nonroot_conversions"] = len(jobs)
 
+    # ---------------- 3d. to_json / @json / tojson on scalar and container operands, and every spelling of the JSON output flag ----------------
+    tj_vals = [GT("s", "3"), GT("s", "q\"x\ny"), GT("s", "~"), GT("s", "null"), GT("s", ""), GT("s", "true"), GT("s", "a: b"), GT("s", "\u00e9\u2028"), GT("i", 3, "3"),
+               GT("i", -7, "-7"), GT("b", True, "true"), GT("n", None, "null"), GT("n", None, "~"), GT("o", items=[("d", GT("i", 1, "1")), ("e", GT("s", "x y"))]),
+               GT("a", items=[GT("s", "1"), GT("i", 1, "1")]), GT("a", items=[]), GT("f", 1.5, "1.5")]
+    tj_vals += [GT("s", gen_text(rng)) for _ in range(60 if thorough else 8)]
+    jobs, meta = [], []
+    for g in tj_vals:
+        src = ("a: %s\n" % gt_yaml_flow(rng, g)).encode("utf-8")
+        for e in (".a | to_json", ".a | @json", ".a | tojson", ".a | to_json(0)"):
+            for fl in ([], ["-r"]):
+                jobs.append((fl + [e], src))
+                meta.append((g, "yq %s '%s'" % (" ".join(fl), e)))
+        for fl in (["-j"], ["--tojson"], ["-o=json"], ["-oj"], ["-o", "json"], ["-o=j"]):
+            jobs.append((fl + ["-I%d" % rng.choice([0, 2]), ".a"], src))
+            meta.append((g, "yq %s .a" % " ".join(fl)))
+    n_fail = 0
+    for (g, what), (args, src), (rc, out, err) in zip(meta, jobs, run_yq_many(jobs)):
+        chk.count(("tojson", src, tuple(args)), nontrivial=True)
+        why = None
+        if rc != 0:
+            why = "failed: " + err.decode("utf-8", "replace")[:200]
+        else:
+            try:
+                ds = diff(g, py_parse(out))
+                if ds:
+                    why = "value differs: want %r got %r" % (ds[0][2], ds[0][3])
+            except Exception as ex:  # noqa
+                why = "output is not a JSON text (%s): %r" % (ex, out[:120])
+        if why:
+            n_fail += 1
+            if n_fail <= 5:
+                chk.violation({"kind": "yaml2json", "args": args, "input_b64": vlib.b64e(src), "input": src.decode("utf-8"), "expected_json_b64": vlib.b64e(gt_expected_json(g)),
+                               "raw_expected_b64": None, "impl_out": out.decode("utf-8", "replace")[:500]}, True, "%s: %s" % (what, why))
+    # a non-finite operand must be rejected, not printed
+    for t in (".inf", "-.inf", ".nan"):
+        for args in ([".a | to_json"], ["-r", ".a | @json"], ["-j", ".a"]):
+            rc, out, err = vlib.run_yq(args, stdin=("a: %s\n" % t).encode())
+            chk.count(("tojson_nonfinite", t, tuple(args)), nontrivial=True)
+            if rc == 0:
+                chk.violation({"kind": "must_error", "args": args, "input_b64": vlib.b64e("a: %s\n" % t), "input": "a: %s" % t, "impl_out": out.decode("utf-8", "replace")}, True,
+                              "yq %s on %s printed %r instead of failing" % (" ".join(args), t, out[:60]))
+    chk.extra["tojson_runs"] = len(jobs)
+
     # ---------------- 4. unrepresentable values must be an error; out-of-range integers ----------------
     must_err = []
     for t in [".inf", "-.inf", "+.inf", ".Inf", ".INF", "-.Inf", "-.INF", ".nan", ".NaN", ".NAN"]:
